@@ -74,7 +74,7 @@ class Monitor:
             if out != "ok %d" % ceil_log2(x):
                 v.append(("shifts", "calculate_shifts(%d) gives `%s`, ceil(log2 x) is %d" % (x, out, ceil_log2(x))))
             return v
-        if op in ("fail_next", "reuse"):
+        if op in ("fail_next", "reuse", "fail_kind"):
             return v
         if op == "pool":
             m = re.match(r"^ok id=(\d+)$", out)
@@ -319,6 +319,8 @@ def gen_history(rng, idx, maxlen=60):
             q = rng.random()
             size = 0 if q < 0.04 else rng.choice(BOUNDS) if q < 0.10 else rng.choice([TWO63 + 1, U64]) if q < 0.13 else rng.choice(palette)
             if rng.random() < 0.18:
+                if rng.random() < 0.5:
+                    lines.append("fail_kind %s" % rng.choice(["error", "bad_alloc", "runtime"]))    # the type the allocator throws
                 lines.append("fail_next %d" % rng.choice([1, 1, 1, 2, 2, 3]))
             lines.append("alloc %s a%d %d" % (p, nh, size))
             dead_or_live_handles.append("a%d" % nh)
